@@ -296,6 +296,115 @@ fn complete_nonmember<TC: Configuration, const L: usize>(w: u32, leaf_len: u32, 
     });
 }
 
+// ================================================================================================
+// Shape-enumerated family (crate::strie): structure concrete, data symbolic.
+use crate::strie::{feasible, shape_of, Pos, STree};
+
+pub const M_NM_REAL: u32 = 1;
+pub const M_CN: u32 = 2;
+pub const M_CM: u32 = 4;
+
+fn shape_body<TC: Configuration, const L: usize>(w: u32, leaf_len: u32, c: usize, side_right: bool, mode: u32) {
+    let hb = shape_of::<L>(c, w);
+    if !feasible(&hb) {
+        return;
+    }
+    model::reset();
+    model::init_constants();
+    let mut keys = [0u16; L];
+    let mut vals = [AzksValue([0u8; 32]); L];
+    let mut i = 0;
+    while i < L {
+        let k: u16 = kani::any();
+        kani::assume(k & ((1u16 << (16 - w)) - 1) == 0);
+        keys[i] = k;
+        let name: u16 = kani::any();
+        kani::assume(name >= model::RAW0);
+        vals[i] = AzksValue(dg(name));
+        i += 1;
+    }
+    let t = STree::<TC, L>::build(keys, hb, leaf_len, vals, side_right);
+    let q: u16 = kani::any();
+    kani::assume(q & ((1u16 << (16 - w)) - 1) == 0);
+    let is_leaf = t.is_leaf_key(q);
+    let qlabel = key_label(q, leaf_len);
+    // reachability witnesses (vacuity guard), evaluated at the end
+    let (mut saw_accept, mut saw_reject, mut saw_honest, mut saw_member) = (false, false, false, false);
+
+    if mode & (M_NM_REAL | M_CN) != 0 {
+        let mut idx = 0;
+        while idx < L {
+            if let Some(a) = t.anchor(idx) {
+                let ch = t.children(a).unwrap();
+                let alabel = t.pos_label(a);
+                let proof = NonMembershipProof {
+                    label: qlabel,
+                    longest_prefix: alabel,
+                    longest_prefix_children: [ch[0].0, ch[1].0],
+                    longest_prefix_membership_proof: t.membership_proof(a),
+                };
+                let r = vnm::<TC>(t.root_hash, &proof);
+                let accepted = r.is_ok();
+                core::mem::forget(r);
+                core::mem::forget(proof);
+                if mode & M_NM_REAL != 0 {
+                    // 1. soundness: any real anchor, any label
+                    saw_accept |= accepted;
+                    saw_reject |= !accepted;
+                    if accepted {
+                        assert!(!is_leaf, "non-membership proof accepted for a label that is in the tree");
+                    }
+                }
+                if mode & M_CN != 0 {
+                    // 5. completeness: if `a` is the deepest node matching q (the honest prover's
+                    // anchor) and q is not a leaf, the proof verifies
+                    let alen = alabel.label_len;
+                    let a_matches = o_is_prefix(key_of(&alabel), alen, q, leaf_len);
+                    let right = alen < 16 && (q >> (15 - alen)) & 1 == 1;
+                    let child = if right { ch[1] } else { ch[0] };
+                    let child_matches = child.1.is_some() && o_is_prefix(key_of(&child.0.label), child.0.label.label_len, q, leaf_len);
+                    if !is_leaf && a_matches && !child_matches {
+                        saw_honest = true;
+                        assert!(accepted, "honest non-membership proof rejected");
+                    }
+                }
+            }
+            idx += 1;
+        }
+    }
+    if mode & M_CM != 0 {
+        let mut i = 0;
+        while i < L {
+            let proof = t.membership_proof(Pos::Iv(i, i));
+            let r = vm::<TC>(t.root_hash, &proof);
+            let ok = r.is_ok();
+            core::mem::forget(r);
+            saw_member |= ok;
+            assert!(ok, "honest membership proof rejected");
+            assert!(model::name_of(&proof.hash_val.0) == t.hn[i][i]);
+            core::mem::forget(proof);
+            i += 1;
+        }
+    }
+    assert!(unsafe { !model::OVERFLOW });
+    kani::cover!(mode & M_NM_REAL == 0 || saw_accept);
+    kani::cover!(mode & M_NM_REAL == 0 || saw_reject);
+    kani::cover!(mode & M_CN == 0 || saw_honest);
+    kani::cover!(mode & M_CM == 0 || saw_member);
+}
+
+macro_rules! shape1 {
+    ($name:ident, $tc:ty, $l:expr, $w:expr, $leaf:expr, $mode:expr, $unw:expr, $c:expr, $side:expr) => {
+        #[kani::proof]
+        #[kani::unwind($unw)]
+        #[kani::stub(alloc::fmt::format, crate::util::format_stub)]
+        fn $name() {
+            shape_body::<$tc, $l>($w, $leaf, $c, $side, $mode);
+        }
+    };
+}
+include!("c05_shapes.rs");
+
 macro_rules! h {
     ($name:ident, $f:ident, $tc:ty, $l:expr, $w:expr, $leaf:expr, $unw:expr, $n:expr) => {
         #[kani::proof]
